@@ -160,7 +160,7 @@ class _NumSys(object):
     def _inits_and_eq_params(self, params):
         eq_params = params[self.eqsys.ns :]
         if not self.new_eq_params:
-            assert not eq_params, "Adjust number of parameters accordingly"
+            assert len(eq_params) == 0, "Adjust number of parameters accordingly"
             eq_params = None  # use those of eqsys
         return params[: self.eqsys.ns], eq_params
 
